@@ -1,6 +1,7 @@
 /- driver ops for the BoC emitter model and the strict reader spec:
    bocemit <dag> <root> <opts>     -> ok <hex>            (opts = 3 chars idx,crc,cache e.g. 110; optional 4th arg flags)
    bocemitall <dag> <root>         -> ok <hex> x6         (the six valid option sets 000 010 100 110 101 111)
+   bocemitord <dag> <i.j.k...>     -> ok <hex> x6         (cells in the given order of node indices, root first)
    bocorder <dag> <root>           -> ok <hash.hash...>   (the model of Cell.order)
    bocstrict <hex>                 -> ok <roots> <rec|rec|...>   rec = d1,bits,refs,hash     | err
    bocflat <hex>                   -> same without the semantic layer (hash = -)
@@ -54,6 +55,21 @@ def handleEmitAll (dag root : String) : String :=
       | none => "err"
       | some recs => "ok " ++ " ".intercalate (allOpts.map (fun o => match emit recs o with | some b => hexOfBytes b | none => "x")))
 
+/-- emit with a GIVEN order of the cells (node indices of the DAG line, root first): the six valid option sets.
+Used by the correspondence when the library's traversal order differs from the model's: any valid order conforms
+(`c04_conforms_any_order`), so only the byte layout for that order is compared. -/
+def handleEmitOrd (dag order : String) : String :=
+  match (dag.splitOn "|").mapM parseNode, parseNatList order with
+  | some nodes, some idxs =>
+    let arr := evalPDag nodes
+    match idxs.mapM (fun i => (arr[i]?).join) with
+    | none => "err"
+    | some cells =>
+      match flattenCells (indexMap cells) cells with
+      | none => "err"
+      | some recs => "ok " ++ " ".intercalate (allOpts.map (fun o => match emit recs o with | some b => hexOfBytes b | none => "x"))
+  | _, _ => "bad-op"
+
 def handleOrder (dag root : String) : String :=
   withRoot dag root (fun n p =>
     match p.order (6 * n + 2) with
@@ -97,6 +113,7 @@ def handle? (op : String) (args : List String) : Option String :=
   | "bocemit", [d, r, o] => some (handleEmit d r o 0)
   | "bocemit", [d, r, o, f] => some (match f.toNat? with | some fl => handleEmit d r o fl | none => "bad-op")
   | "bocemitall", [d, r] => some (handleEmitAll d r)
+  | "bocemitord", [d, o] => some (handleEmitOrd d o)
   | "bocorder", [d, r] => some (handleOrder d r)
   | "bocstrict", [h] => some (handleStrict h)
   | "bocflat", [h] => some (handleFlat h)
